@@ -645,6 +645,7 @@ int reb_integrator_bs_step(struct reb_simulation* r, double dt){
         if (no_result){
             reb_simulation_error(r, "Step failed at the minimal stepsize during ODE integration.");
             r->status = REB_STATUS_GENERIC_ERROR;
+            REB_VERIF(r, "bs_err", 4, ri_bs->dt_proposed, (double)ri_bs->target_iter, (double)ri_bs->previous_rejected, (double)ri_bs->first_or_last_step);
             return 0;
         }
         // Accept the step even though the error estimate is too large (as IAS15 does at its min_dt).
